@@ -59,6 +59,18 @@ def rand_row(rng, length):
     """a row of exactly `length` single-column characters: ["str", text] or ["fs", runs]"""
     if rng.random() < 0.3:
         return ["str", "".join(rng.choice(CHARS) for _ in range(length))]
+    if length >= 2 and rng.random() < 0.15:
+        # formatted text that ENDS in blanks, a run boundary right there, then unformatted blanks or nothing
+        k = rng.randint(1, length - 1)
+        head = "".join(rng.choice(CHARS) for _ in range(k - 1)) + " "
+        a = list(canon.rand_atts(rng, allow_false=False))
+        if not any(a):
+            a[1] = 5
+        tail = rng.choice([[" " * (length - k), [0] * 8], [" " * (length - k), [0, 0, 2, 0, 0, 0, 0, 0]]])
+        runs = [[head, a], tail]
+        if rng.random() < 0.4:
+            runs.append(["", [0] * 8])
+        return ["fs", runs]
     runs = []
     left = length
     while left > 0:
